@@ -50,7 +50,9 @@ func (r *Reconciler) ExtendPause(increment klog.Duration) error {
 
 	extendedPause := r.Record.Entries()[pauseEntryI].Duration().Plus(increment)
 	pauseLineIndex := r.lastLinePointer - countLines(r.Record.Entries()[pauseEntryI:])
-	durationPattern := regexp.MustCompile(`(-\w+)`)
+	// The value of the entry is the first token of the line (after the indentation).
+	// Note that a zero-valued pause doesn’t necessarily carry a minus sign (e.g. `0m`).
+	durationPattern := regexp.MustCompile(`\S+`)
 	value := durationPattern.FindString(r.lines[pauseLineIndex].Text)
 	if extendedPause.InMinutes() != 0 {
 		r.lines[pauseLineIndex].Text = strings.Replace(r.lines[pauseLineIndex].Text, value, extendedPause.ToString(), 1)
